@@ -95,6 +95,35 @@ def search(ctx, deep):
                         bad('probability_density', 'negative', {'u': u, 'v': v}, pv, 'pdf >= 0')
                     if not abs(pv - P(v, u)) <= 1e-9 * max(1.0, abs(pv)):
                         bad('probability_density', 'symmetry', {'u': u, 'v': v}, [pv, P(v, u)], 'pdf(u,v)=pdf(v,u)')
+                # corner probes: the property's domain reaches 1e-4 from every edge
+                for a in (1e-4, 1e-3, 1e-2, 3e-2):
+                    for b in (1e-4, 1e-2, 3e-2):
+                        for (u, v) in ((1 - a, 1 - b), (a, b), (1 - a, b), (a, 1 - b)):
+                            hs = 0.05 * min(u, v, 1 - u, 1 - v)
+                            hv, pv = H(u, v), P(u, v)
+                            dC = fd(lambda t: C(u, t), v, hs)
+                            dH = fd(lambda t: H(t, v), u, hs)
+                            checked += 2
+                            if not (hv == hv and abs(hv - dC) <= 1e-4 * max(1.0, abs(hv))):
+                                bad('partial_derivative', 'not-dC/dv', {'u': u, 'v': v}, [hv, dC], 'partial_derivative = dC/dv (corner probe)')
+                            if not (pv == pv and abs(pv - dH) <= 2e-3 * max(abs(pv), abs(dH), 1e-6) + 1e-9):
+                                bad('probability_density', 'not-d2C/dudv', {'u': u, 'v': v}, [pv, dH], 'pdf = d/du partial_derivative (corner probe)')
+                # log density: the logarithm of the density, row by row, in any batch
+                rows = B.batch(rng, 'open') + [(rng.choice([1e-4, 1e-3, 5e-3]), rng.uniform(0.2, 0.999))]
+                X = np.array(rows, dtype=float)
+                lp = np.asarray(c.log_probability_density(X), dtype=float)
+                pd_ = np.asarray(c.probability_density(X), dtype=float)
+                solo = np.array([float(c.log_probability_density(X[i:i + 1])[0]) for i in range(len(rows))])
+                checked += 1
+                ok_log = all((a == b) or abs(a - b) <= 1e-9 * max(1.0, abs(a)) or (a != a and b != b)
+                             for a, b in zip(lp, np.log(pd_)))
+                ok_rows = all((a == b) or (a != a and b != b) for a, b in zip(lp, solo))
+                if not ok_log:
+                    bad('log_probability_density', 'not-log-of-pdf', {'rows': rows}, {'logpdf': lp.tolist(), 'log(pdf)': np.log(pd_).tolist()},
+                        'log_probability_density = log(probability_density)')
+                if not ok_rows:
+                    bad('log_probability_density', 'row-independence', {'rows': rows}, {'batch': lp.tolist(), 'solo': solo.tolist()},
+                        'row i of a batch = the row alone')
                 # monotone in u, endpoints on the property's domain
                 v = rng.uniform(1e-4, 1 - 1e-4)
                 us = sorted(rng.uniform(1e-4, 1 - 1e-4) for _ in range(10))
